@@ -192,8 +192,8 @@ where
 /// seeded random schedules at the instrumented yield points
 pub fn sched_random(ctx: &mut Ctx) {
     let mut rng = ctx.rng(0xC07);
-    let scenarios = ctx.by_tier(8, 40);
-    let schedules = ctx.by_tier(24, 100);
+    let scenarios = ctx.by_tier(8, 150);
+    let schedules = ctx.by_tier(24, 200);
     sched_random_kind::<Bdd>(ctx, &mut rng, scenarios, schedules);
     sched_random_kind::<Bcdd>(ctx, &mut rng, scenarios, schedules);
     sched_random_kind::<Zbdd>(ctx, &mut rng, scenarios, schedules);
@@ -262,7 +262,7 @@ where
 
 pub fn sched_dfs(ctx: &mut Ctx) {
     let mut rng = ctx.rng(0xC07_D);
-    let scenarios = ctx.by_tier(2, 6);
+    let scenarios = ctx.by_tier(2, 12);
     let budget = ctx.by_tier(3000, 40_000);
     let bound = ctx.by_tier(1, 2);
     match ctx.shard % 3 {
@@ -310,7 +310,7 @@ where
 
 pub fn stress(ctx: &mut Ctx) {
     let mut rng = ctx.rng(0xC07_5);
-    let rounds = ctx.by_tier(12, 100);
+    let rounds = ctx.by_tier(12, 300);
     stress_kind::<Bdd>(ctx, &mut rng, rounds, false);
     stress_kind::<Bcdd>(ctx, &mut rng, rounds, false);
     stress_kind::<Zbdd>(ctx, &mut rng, rounds, false);
